@@ -104,10 +104,22 @@ func genDoc(rt *rapid.T, hostile bool) *gen.GraphBP {
 	ns := rapid.IntRange(1, 3).Draw(rt, "sources")
 	g.Sources = nil
 	used := map[string]bool{}
+	// two sources whose pointers differ only where a page name has to escape something: letters
+	// that share their first byte in UTF-8, a character and the text of its own escape
+	var sourcePair []string
+	if hostile && rapid.IntRange(0, 3).Draw(rt, "sourcePair") == 0 {
+		sourcePair = rapid.SampledFrom([][]string{{"Möller", "Müller"}, {"Zoë", "Zoé"}, {"Жук", "Дук"}, {"李", "杏"}, {"a b", "a_20b"}, {"S 1", "S_201"}, {"a/b", "a_2fb"}, {"é", "è"}}).Draw(rt, "sourcePairOf")
+		if ns < 2 {
+			ns = 2
+		}
+	}
 	for i := 0; i < ns; i++ {
 		id := fmt.Sprintf("S%d", i+1)
 		if hostile && rapid.Bool().Draw(rt, "hostileSource") {
 			id = rapid.SampledFrom(hostileSourcePointers).Draw(rt, "sourcePointer")
+		}
+		if i < len(sourcePair) {
+			id = sourcePair[i]
 		}
 		if used[id] {
 			continue
